@@ -7,7 +7,7 @@ using namespace vk;
 static bool safech(unsigned char c) { return isalnum(c) || strchr(".@%+/=:-[]", c) != nullptr; }
 static std::string ns(const std::string &s) { return std::to_string(s.size()) + ":" + s + ","; }
 
-struct Case { std::string name, daemon, input; std::map<std::string, std::string> env; std::string sender; std::vector<std::string> rcpts; std::string body, body2; bool has_body2 = false; std::string morercpt; bool has_morercpt = false; bool partial_ok = false; std::vector<int> want_codes; bool wellformed = true; int qstatus = 0; std::string qtext; bool qcrash = false;
+struct Case { std::string name, daemon, input; std::map<std::string, std::string> env; std::string sender; std::vector<std::string> rcpts; std::string body, body2; bool has_body2 = false; std::string morercpt; bool has_morercpt = false; bool partial_ok = false; bool framing_check = true; std::vector<int> want_codes; bool wellformed = true; int qstatus = 0; std::string qtext; bool qcrash = false;
               std::vector<std::string> bodies; std::vector<int> expect_multi; /* per message: 0 ack, 5 permanent */ int expect_class = 0; /* 0 success, 4 temporary, 5 permanent, -1 protocol violation (no acknowledgement at all) */ int databytes = 0; bool realqueue = false; bool cut = false; };
 
 static std::string smtp_session(const std::string &helo, const std::string &sender, const std::vector<std::string> &rc, const std::string &body_lf, bool quit = true) {
@@ -81,7 +81,7 @@ static std::vector<Case> make_cases(const Config &cfg) {
       int maxl = cfg.geti("maxlen", 5); const char al[] = {'\r', '\n', '.', 'a'};
       for (int n = 0; n <= maxl; n++) { std::vector<int> idx(n, 0); for (;;) {
           std::string pl; for (int i = 0; i < n; i++) pl += al[idx[i]];
-          Case c = base(d); c.rcpts = {"r1@a.example"}; c.name = "smtpd payload [" + esc(pl) + "]";
+          Case c = base(d); c.rcpts = {"r1@a.example"}; c.name = "smtpd payload [" + esc(pl) + "]"; c.framing_check = false;   /* the payload may contain its own terminator; the reference decoder judges this family */
           std::string stream = pl + "\r\n.\r\nQUIT\r\n"; c.input = "HELO x\r\nMAIL FROM:<" + c.sender + ">\r\nRCPT TO:<r1@a.example>\r\nDATA\r\n" + stream;
           // reference decode
           { size_t i = 0; std::string o, o2; bool amb = false; int status = -1;
@@ -239,7 +239,7 @@ struct C07 : Scenario {
       while (i < o.size()) { size_t col = o.find(':', i); if (col == std::string::npos) break; size_t len = atol(o.substr(i, col - i).c_str()); if (col + 1 + len >= o.size() + 0 && col + 1 + len > o.size()) break; char t = o[col + 1]; if (t == 'K') nk++; else if (t == 'Z') nz++; else if (t == 'D') nd++; n++; i = col + 1 + len + 1; }
       if (n) { if (nk == n) { ack = true; cls = 0; } else if (nk > 0) { ack = true; cls = 0; w.counters["partial_acks"]++; } else if (nz) cls = 4; else cls = 5; }
     }
-    if (c->daemon == "smtpd" && !c->cut && c->wellformed && c->input.size() >= 11 && c->input.compare(c->input.size() - 11, 11, "\r\n.\r\nQUIT\r\n") == 0) {
+    if (c->daemon == "smtpd" && c->framing_check && !c->cut && c->wellformed && c->input.size() >= 11 && c->input.compare(c->input.size() - 11, 11, "\r\n.\r\nQUIT\r\n") == 0) {
       // once the server has said 354 the client sends the message: those bytes are data up to CRLF.CRLF whatever happens on the queue side, so
       // exactly two more replies may follow (one for the message, one for QUIT); more means message lines were executed as commands
       size_t g = o.find("\r\n354 "); if (g != std::string::npos) { size_t l = o.find("\r\n", g + 2); int n = 0; size_t i = l == std::string::npos ? o.size() : l + 2; while (i < o.size()) { size_t e = o.find("\r\n", i); if (e == std::string::npos) break; if (e >= i + 4 && o[i + 3] == ' ') n++; i = e + 2; }
